@@ -43,6 +43,11 @@
 (*                     handed to its writer goroutine                          *)
 (*   "CloseSkipsTaken" Close looks only at the buffer, not at a batch a flush  *)
 (*                     in progress has already taken                           *)
+(*   "UpgTailEager"    an upgrade completing on a closing session closes the   *)
+(*                     new transport at once even with packets still buffered  *)
+(*   "FlushForgets"    a flush asked for while another one runs is dropped     *)
+(*   "DrainNoRecheck"  a Close waiting for "drain" goes on at the next drain   *)
+(*                     even if packets were buffered meanwhile                 *)
 (* With Deviations = {} the model is the code as it stands.                    *)
 EXTENDS Integers, Sequences, FiniteSets, TLC, Json, EioProps
 
@@ -79,9 +84,11 @@ Init ==
           fl |-> <<>>,              \* batch taken by a flush in progress (flushMu held), <<>> when none
           flt |-> "p",              \* transport seen by that flush when it tested Writable
           flk |-> "none",           \* what the flushing goroutine does after flush returns: none | poll | upg
+          fd |-> FALSE,             \* that flush has handed its batch over and is running its "drain" listeners (flushMu still held)
+          fw |-> FALSE,             \* flushWanted: a flush was asked for while another one held flushMu
           wr |-> [t \in T |-> FALSE],      \* transport.writable
           trs |-> [t \in T |-> IF t = "p" THEN "open" ELSE "none"],   \* transport.readyState (none: no such transport)
-          poll |-> "none",          \* polling.req: none | pending
+          poll |-> "none",          \* polling.req: none | pending | gone (pending, but its client went away)
           infl |-> [t \in T |-> <<>>],     \* batches handed to `go send` goroutines that have not written yet
           sc |-> FALSE,             \* polling.shouldClose set (orderly close buffered until the next write / close timeout)
           scfn |-> FALSE,           \* .. and it carries socket.OnClose("forced close")
@@ -121,10 +128,11 @@ TrEvent(x, t, reason) == IF x.att[t] THEN CloseEnter(x, reason) ELSE x
 TrClose(x, t, withFn) ==
     IF x.trs[t] \in {"closed", "none"} \/ (x.trs[t] = "closing" /\ ~(t = "p" /\ x.disc)) THEN x
     ELSE IF t = "w"
-    THEN \* fn(); defer conn.Close()  (the reader then reports the closed connection: transport "close")
-         LET a == [x EXCEPT !.trs["w"] = "closed"]
-             b == IF withFn THEN CloseEnter(a, "forced close") ELSE a
-         IN TrEvent(b, "w", "transport close")
+    THEN \* `defer conn.Close(); fn()`: the connection is closed when fn (= socket.OnClose, all of it) has returned;
+         \* a batch already handed to the writer goroutine races with that (WsWrite)
+         IF withFn /\ x.rs # "closed"
+         THEN CloseEnter([x EXCEPT !.trs["w"] = "closing"], "forced close")
+         ELSE TrEvent([x EXCEPT !.trs["w"] = "closed"], "w", "transport close")
     ELSE LET onClose(y) == \* fn(); p.OnClose() -> (writable: noop) -> readyState closed, emit close
                  LET b == IF withFn THEN CloseEnter(y, "forced close") ELSE y
                      c == IF b.wr["p"] THEN TrSend(b, "p", <<P("noop")>>) ELSE b
@@ -135,11 +143,13 @@ TrClose(x, t, withFn) ==
 
 (* ---- socket --------------------------------------------------------------- *)
 \* socket.flush up to and including the "flush" listeners: TryLock, state and Writable test, take the buffer
+Locked(x) == x.fl # <<>> \/ x.fd
 FlushTake(x, k) ==
-    IF x.fl = <<>> /\ x.rs # "closed" /\ x.wr[x.cur] /\ x.wbuf # <<>>
+    IF ~Locked(x) /\ x.rs # "closed" /\ x.wr[x.cur] /\ x.wbuf # <<>>
     THEN [x EXCEPT !.fl = x.wbuf, !.wbuf = IF Dev("LateClear") THEN x.wbuf ELSE <<>>, !.flt = x.cur, !.flk = k]
+    ELSE IF Locked(x) /\ ~Dev("FlushForgets") THEN [x EXCEPT !.fw = TRUE]      \* TryLock failed: the holder will look again
     ELSE x
-Took(x, y) == x.fl = <<>> /\ y.fl # <<>>       \* FlushTake(x, k) = y took a batch
+Took(x, y) == ~Locked(x) /\ y.fl # <<>>       \* FlushTake(x, k) = y took a batch
 
 \* socket.closeTransport(discard)
 CloseTransport(x, discard) ==
@@ -149,16 +159,25 @@ CloseTransport(x, discard) ==
 PollTail(x) ==
     LET a == IF x.wr["p"] /\ x.sc THEN TrSend(x, "p", <<P("noop")>>) ELSE x       \* pending orderly close: trigger an empty send
     IN IF a.wr["p"] /\ a.trs["p"] = "closed" /\ ~Dev("PollVsClose") THEN TrSend(a, "p", <<P("close")>>) ELSE a
-UpgTail(x) == IF x.rs = "closing" THEN TrClose(x, "w", TRUE) ELSE x
+\* (a session closing gracefully with packets still buffered is closed by the Close that waits for "drain", not here)
+UpgTail(x) == IF x.rs = "closing" /\ (x.wbuf = <<>> \/ Dev("UpgTailEager")) THEN TrClose(x, "w", TRUE) ELSE x
 After(x, k) == CASE k = "poll" -> PollTail(x) [] k = "upg" -> UpgTail(x) [] OTHER -> x
 
 \* socket.flush after the listeners: hand the batch to the transport, emit drain (a waiting Close proceeds), unlock, continue
+\* .. the "drain" listeners have run (among them a Close waiting for drain, registered after the application's): unlock, continue
+FlushDone(x) ==
+    LET k == x.flk
+        a == [x EXCEPT !.fd = FALSE, !.flk = "none"]
+        \* the Close that waits for "drain" goes on only once nothing accepted is waiting any more (else it waits for the next drain)
+        b == IF a.drainClose /\ (a.wbuf = <<>> \/ Dev("DrainNoRecheck")) THEN CloseTransport([a EXCEPT !.drainClose = FALSE], FALSE) ELSE a
+        \* unlock; a flush asked for meanwhile is done now by the same goroutine, before it goes on with its own business
+        c == IF b.fw THEN FlushTake([b EXCEPT !.fw = FALSE], k) ELSE b
+    IN IF Took(b, c) THEN c ELSE After(c, k)
 FlushHand(x) ==
     LET t == IF Dev("StaleTransport") THEN x.flt ELSE x.cur
-        a == TrSend([x EXCEPT !.fl = <<>>, !.flk = "none",
+        a == TrSend([x EXCEPT !.fl = <<>>, !.fd = TRUE,
                               !.wbuf = IF Dev("LateClear") THEN <<>> ELSE x.wbuf], t, x.fl)
-        b == IF a.drainClose THEN CloseTransport([a EXCEPT !.drainClose = FALSE], FALSE) ELSE a
-    IN After(b, x.flk)
+    IN IF "dwindow" \in Features THEN a ELSE FlushDone(a)
 
 \* a trigger of flush with continuation k: either the buffer is taken (window open, FlushHand follows) or the tail runs at once
 Flush(x, k) == LET y == FlushTake(x, k) IN IF Took(x, y) THEN y ELSE After(y, k)
@@ -183,6 +202,12 @@ FlushGo ==
     /\ s' = FlushHand(s)
     /\ UNCHANGED ob
     /\ H([a |-> "flush.hand"])
+
+FlushEnd ==
+    /\ s.fd
+    /\ s' = FlushDone(s)
+    /\ UNCHANGED ob
+    /\ H([a |-> "flush.done"])
 
 \* socket.Close(discard)
 AppClose(discard) ==
@@ -209,7 +234,7 @@ CloseMid(reason) ==
 \* .. third step: the candidate's close listener (registered last, at upgrade time) fails the upgrade; the buffer is cleared
 CloseFinish(reason) ==
     /\ reason \in s.mid
-    /\ LET a == [s EXCEPT !.mid = @ \ {reason}, !.wbuf = <<>>] IN
+    /\ LET a == [s EXCEPT !.mid = @ \ {reason}, !.wbuf = <<>>, !.trs["w"] = IF @ = "closing" THEN "closed" ELSE @] IN
        s' = IF a.cand \in {"attached", "probed"}
             THEN [a EXCEPT !.cand = "dead", !.upgrading = FALSE, !.trs["w"] = "closed"]
             ELSE a
@@ -222,7 +247,7 @@ CloseRest(reason) ==
     /\ LET a == [s EXCEPT !.enter = @ \ {reason}, !.rs = "closed", !.pingOut = FALSE, !.armed = FALSE, !.att = [t \in T |-> FALSE]]
            b == TrClose(a, a.cur, FALSE)
            c == IF b.reg THEN [b EXCEPT !.reg = FALSE, !.count = @ - 1] ELSE b
-           d == [c EXCEPT !.wbuf = <<>>]
+           d == [c EXCEPT !.wbuf = <<>>, !.trs["w"] = IF @ = "closing" THEN "closed" ELSE @]
        IN s' = IF d.cand \in {"attached", "probed"} THEN [d EXCEPT !.cand = "dead", !.upgrading = FALSE, !.trs["w"] = "closed"] ELSE d
     /\ ob' = [ob EXCEPT !.nclose = @ + 1, !.reasons = Append(@, reason)]
     /\ H([a |-> "onclose.rest", reason |-> reason])
@@ -231,7 +256,7 @@ CloseRest(reason) ==
 (* polling transport *)
 \* the client opens a poll: onPollRequest
 CliPoll ==
-    /\ ob.npolls < MaxPolls /\ s.reg /\ s.cur = "p" /\ s.fl = <<>>
+    /\ ob.npolls < MaxPolls /\ s.reg /\ s.cur = "p"
     /\ ob' = [ob EXCEPT !.npolls = @ + 1,
                         !.stuck = IF s.poll = "none" /\ s.trs["p"] = "closed" /\ Dev("PollVsClose") THEN @ + 1 ELSE @]
     /\ IF s.poll # "none"
@@ -258,13 +283,17 @@ PollWrite(i) ==
           THEN /\ s' = [a1 EXCEPT !.poll = "none"]
                /\ ob' = [ob EXCEPT !.rcvd = @ \o MsgsOf(b)]
                /\ H([a |-> "pollwrite", ok |-> TRUE, i |-> i])
+          ELSE IF a1.poll = "gone"
+          THEN /\ s' = [a1 EXCEPT !.poll = "none"]        \* written into the void
+               /\ UNCHANGED ob
+               /\ H([a |-> "pollwrite", ok |-> TRUE, i |-> i])
           ELSE /\ s' = TrEvent(a1, "p", "transport error")      \* "polling write error" (silenced once the socket let go)
                /\ UNCHANGED ob
                /\ H([a |-> "pollwrite", ok |-> FALSE, i |-> i])
 
 \* the close timeout of a buffered orderly close elapses
 CloseTimeoutFire ==
-    /\ "close" \in Features /\ s.sc
+    /\ "ctimeout" \in Features /\ s.sc
     /\ LET c == [s EXCEPT !.sc = FALSE, !.scfn = FALSE]
            d == IF s.scfn THEN CloseEnter(c, "forced close") ELSE c
        IN s' = TrEvent([d EXCEPT !.trs["p"] = "closed"], "p", "transport close")
@@ -274,7 +303,7 @@ CloseTimeoutFire ==
 \* the client gives up its pending poll (connection dropped)
 PollAbort ==
     /\ "abort" \in Features /\ s.poll = "pending" /\ s.reg
-    /\ s' = TrEvent([s EXCEPT !.wr["p"] = FALSE], "p", "transport error")
+    /\ s' = TrEvent([s EXCEPT !.wr["p"] = FALSE, !.poll = "gone"], "p", "transport error")      \* the slot stays taken (p.req is only reset by a write)
     /\ UNCHANGED ob
     /\ H([a |-> "poll.abort"])
 
@@ -300,7 +329,7 @@ PeerClose ==
 WsWrite ==
     /\ s.infl["w"] # <<>>
     /\ LET b == Head(s.infl["w"])
-           live == s.trs["w"] = "open" \/ ~Dev("WsCloseCutsSend")
+           live == s.trs["w"] \in {"open", "closing"} \/ ~Dev("WsCloseCutsSend")
            a == [s EXCEPT !.infl["w"] = Tail(@), !.wr["w"] = TRUE]
        IN /\ s' = IF a.att["w"] THEN Flush(a, "none") ELSE a      \* drain, writable, ready -> socket.flush
           /\ ob' = IF live THEN [ob EXCEPT !.rcvd = @ \o MsgsOf(b)]
@@ -322,7 +351,7 @@ CandProbe ==
 \* the 100 ms check: release a pending poll with a noop; since fix ... it steps aside while a flush is in progress
 CheckTick ==
     /\ s.cand = "probed" /\ s.cur = "p" /\ s.wr["p"] /\ s.att["p"]
-    /\ (s.fl = <<>> \/ Dev("CheckNoLock"))
+    /\ (~Locked(s) \/ Dev("CheckNoLock"))
     /\ s' = TrSend(s, "p", <<P("noop")>>)
     /\ UNCHANGED ob
     /\ H([a |-> "check"])
@@ -371,7 +400,7 @@ Windows == "window" \in Features
 CloseWin == "closewin" \in Features
 
 Next == \/ \E m \in Msgs : AppSend(m)
-        \/ FlushGo
+        \/ FlushGo \/ FlushEnd
         \/ \E d \in BOOLEAN : AppClose(d)
         \/ CliPoll \/ (\E i \in 1..2 : PollWrite(i)) \/ WsWrite \/ PeerClose \/ PollAbort \/ CloseTimeoutFire
         \/ \E m \in CliMsgs : CliMsg(m)
@@ -389,10 +418,10 @@ Spec == Init /\ [][NextW]_vars
 ----------------------------------------------------------------------------
 IsPrefix(a, b) == Len(a) <= Len(b) /\ SubSeq(b, 1, Len(a)) = a
 InClose == s.enter # {} \/ s.mid # {}
-Quiet == ~InClose /\ s.infl["p"] = <<>> /\ s.infl["w"] = <<>> /\ s.fl = <<>>
+Quiet == ~InClose /\ s.infl["p"] = <<>> /\ s.infl["w"] = <<>> /\ ~Locked(s)
 
-TypeOK == /\ s.rs \in {"open", "closing", "closed"} /\ s.cur \in T /\ s.poll \in {"none", "pending"}
-          /\ s.cand \in {"none", "attached", "probed", "dead"} /\ s.flk \in {"none", "poll", "upg"}
+TypeOK == /\ s.rs \in {"open", "closing", "closed"} /\ s.cur \in T /\ s.poll \in {"none", "pending", "gone"}
+          /\ s.cand \in {"none", "attached", "probed", "dead"} /\ s.flk \in {"none", "poll", "upg"} /\ s.fw \in BOOLEAN /\ s.fd \in BOOLEAN
           /\ \A t \in T : s.trs[t] \in {"none", "open", "closing", "closed"}
 
 \* C01: what the client has received is always a prefix of what Send accepted
@@ -402,6 +431,8 @@ C01_NothingLost == (s.rs = "open" /\ ~InClose) =>
                       LET pending == MsgsOf(s.fl) \o MsgsOf(s.wbuf)
                           flying == MsgsOf(Flat(s.infl[s.cur]))
                       IN ob.sent = ob.rcvd \o flying \o pending
+\* C01: packets never sit in the buffer of an open session whose transport is writable with nobody about to hand them over
+C01_NoStuckBuffer == ~(s.rs = "open" /\ ~InClose /\ ~Locked(s) /\ s.wbuf # <<>> /\ s.wr[s.cur] /\ s.att[s.cur])
 \* C02: what the application was handed is what the client submitted while the session was open, in order
 C02_Order == IsPrefix(ob.submitted, ob.delivered) \/ IsPrefix(ob.delivered, ob.submitted)
 \* C03: at most one close event; the state never leaves closed; a close event only for a cause
@@ -414,7 +445,7 @@ C03_NoSpuriousError == ("overlap" \notin Features /\ "abort" \notin Features) =>
 C04_Registry == ~InClose => (s.reg <=> s.rs # "closed") /\ s.count = (IF s.reg THEN 1 ELSE 0)
 C04_NoUnderflow == s.count >= 0
 \* C11/C12: a poll accepted is not left pending once the session is closed and everything has been written
-C12_PollReleased == (Quiet /\ s.rs = "closed" /\ ~s.sc) => (s.poll = "none" \/ (ob.stuck > 0 /\ Dev("PollVsClose")))
+C12_PollReleased == (Quiet /\ s.rs = "closed" /\ ~s.sc) => (s.poll \in {"none", "gone"} \/ (ob.stuck > 0 /\ Dev("PollVsClose")))
 C11_NoStuckPoll == ob.stuck = 0
 \* C12: whatever was accepted before a graceful Close has reached the client once the session is closed and quiet,
 \* unless something else ended the session first
